@@ -21,6 +21,10 @@ type Byz struct {
 	HRRGroup  CurveID // send a HelloRetryRequest selecting this group (0: only when needed)
 	HRRCookie []byte  // cookie to put into the HelloRetryRequest
 	HRRAlways bool    // send the HRR even if a usable share is present
+	// HRRCookieOnly (with HRRCookie and HRRAlways): the HelloRetryRequest carries the cookie but no
+	// key_share (RFC 8446 4.1.4: a stateless server). The second ClientHello must repeat the shares
+	// of the first; the server then uses the share of the group it would have selected anyway.
+	HRRCookieOnly bool
 	// AfterHRR: the HelloRetryRequest itself is honest (echoed session id, null compression);
 	// WrongSessionID / CompressionMethod then apply to the ServerHello that follows it only.
 	AfterHRR bool
